@@ -40,7 +40,9 @@ Explains(cfg, e) ==
          [] c.op = "less" -> LET m == SetMax(Range(cfg.alpha)) IN
                              /\ Len(r.less) = m + 2
                              /\ \A x \in 0..(m + 1) : r.less[x + 1] = LessDef(t, x)
-         [] c.op = "occ"  -> OccTableOK(c.a.bwt, c.a.syms, r.tab)
+         [] c.op = "occ"  -> /\ OccTableOK(c.a.bwt, c.a.syms, r.tab)
+                             \* clone / clone_from: the original answers like the copy
+                             /\ ("tab0" \in DOMAIN r) => r.tab0 = r.tab
          [] c.op = "invert" -> r.text = t
          [] OTHER -> FALSE
 
